@@ -498,6 +498,10 @@ func (g *e2eGen) newPlan(id int) *callPlan {
 				d.Pick = &simsvc.Pick{Kv: map[string]string{"k": genString(tp, "val", 3)}}
 			}
 			d.Big = []int64{0, 1<<63 - 1, -1 << 63, 1 << 53}[tp.Intn("val", 4)]
+			if k := tp.Intn("val", 4); k > 0 {
+				v := []float64{1.5, 1.5 + 1e-12, 1.5000000001, 0}[k]
+				d.Tuned = v // at, next to and away from the declared default
+			}
 			d.Inf = []float64{0, -0.5, 1e308, 5e-324, -1e-300}[tp.Intn("val", 5)] // (no infinities: apache thrift's JSON reader mis-reads "Infinity" when the token straddles its 4096-byte buffer - upstream, not frugal)
 			return d
 		}
@@ -709,7 +713,17 @@ func (g *e2eGen) shape(p *callPlan, hdr map[string]string, which, d, reqLimit, r
 	if which == 0 && reqLimit > 0 {
 		target := reqLimit + d
 		ok := false
-		if p.method == "blob" {
+		if p.bulk == 2 {
+			// the bulk of the request sits in one user header: the limit applies to the frame, whatever fills it
+			p.shapedReqHdr = map[string]string{}
+			ok = grow(target, func() int { return g.requestFrameSize(p, hdr) }, func(n int) { hdr["qbig"] = fill(n); p.shapedReqHdr["qbig"] = hdr["qbig"] })
+			if ok {
+				g.rc.Fault("bulk-of-the-request-in-a-header")
+			} else {
+				delete(hdr, "qbig")
+				p.shapedReqHdr = nil
+			}
+		} else if p.method == "blob" {
 			ok = grow(target, func() int { return g.requestFrameSize(p, hdr) }, func(n int) { p.args[0] = []byte(fill(n)) })
 		} else if p.method == "mixed" {
 			ok = grow(target, func() int { return g.requestFrameSize(p, hdr) }, func(n int) { p.args[0].(*simsvc.Mixed).Pad = fill(n) })
@@ -774,6 +788,17 @@ func e2eCheck(rc *RunCtx, env *e2eEnv, plans []*callPlan, cli, prov, srv, added 
 			return env.prov2Spec
 		}
 		return prov
+	}
+	// what went over the wire must be a well-formed Thrift message by its own type tags (an independent,
+	// schema-less reader skips every field and must end exactly at the end of the frame)
+	for _, w := range env.wire {
+		if w.frame == nil || len(w.frame.Payload) == 0 {
+			continue
+		}
+		if r := parseRawReply(env.proto, w.frame.Payload); r.err != nil || r.leftover != 0 {
+			rc.Violate("C03", "wire-message-malformed", key+" "+w.dir, fmt.Sprintf("%s frame for op id %s (%s): a schema-less reader fails on it: err=%v, %d bytes left over", w.dir, w.frame.Headers["_opid"], r.method, r.err, r.leftover))
+			break
+		}
 	}
 	opids := map[string]string{}
 	for _, p := range plans {
